@@ -363,8 +363,19 @@ package cisco
 // block); a route of the device is replaced by at most one new route.
 //vc:func (*State).diffIOSACLs
 //vc:  assert[C02] at "moveACL(cmdPos, b," @suppressOnlyIdenticalLine (arg4 || arg5) ==> same
+// routeManaged / routeGiven: specification state of the last loop - the VRF of
+// the device route at hand gets routes from Netspoc; the route last handed to
+// delCmds (which skips the ones already replaced: they are marked needed).
+// Every device route that Netspoc no longer has, in a VRF that Netspoc
+// configures, is handed to delCmds - none is skipped on the way.
+//vc:ghost var routeManaged bool
+//vc:ghost var routeGiven *cmd
 //vc:func (*State).diffRoutes
 //vc:  assert[C01,C02] at "delete(delDst, dstOfRoute(c))" @deviceRouteReplacedOnce found
+//vc:  assert[C01,C02] at "delete(delDst, dstOfRoute(c))" @replacedRouteMarked del.needed
+//vc:  assign after "if vrf := dstOfRoute(c).vrf; chgVRF[vrf]" routeManaged = (callresult.vrf in chgVRF) && chgVRF[callresult.vrf]
+//vc:  assign after "s.delCmds([]*cmd{c})" routeGiven = c
+//vc:  invariant[C01,C02] 7 "for _, c := range al[r.LowA:r.HighA]" @obsoleteRouteOfManagedVRFDeleted forall k int :: { rangeslice[k] } k == rangeindex && 0 <= k && routeManaged ==> routeGiven == rangeslice[k]
 // insideBlock (closure 4 of diffIOSACLs): the block an insert position belongs
 // to is the block of the line in front of it (remarks belong to the block in
 // front of them); at the top of the ACL there is none. A remark at a block
